@@ -175,7 +175,10 @@ def _act(ctx, name, action):
         tr.calls.append(rec)
         if a == "extend":
             for o in objs:
-                if vname(o) not in ctx.host or True:
+                if o not in host.doers:
+                    # only a doer that is not yet listed gets entered by extend(): it starts a lifecycle under this host.
+                    # (A pool doer that finished here earlier stays listed; extending it again is a no-op and must not
+                    # re-attribute a lifecycle it is running under another scheduler.)
                     ctx.host[vname(o)] = host
                     ctx.host_log.append((len(tr.ev), vname(o), host))
             try:
